@@ -6,7 +6,8 @@ BUDGET_S = {'quick': 60, 'thorough': 600}
 BATCH = 250
 RULE = ('frame tables drawn from one PRNG: 0-40 frames x 0-6 channels; each channel is a random walk over '
         '{empty, same sprite, sprite with ONE attribute changed, unrelated sprite}; main/palette rows from '
-        'small value pools so that equal neighbours are common; plus a ragged-table stream. Non-trivial = at '
+        'small value pools so that equal neighbours are common; tables whose channels show the SAME sprites (shared pool of '
+        '1-3 attribute tuples, staggered entries) so that identical sprites are stacked in several channels; plus a ragged-table stream. Non-trivial = at '
         'least one channel has a span of length >= 2 AND a gap or an attribute change; distinct by SHA1 of the case.')
 EXPLANATION = ('Unbounded theorems (any number of frames/channels/any values) on the Gallina model of vwsc_to_score; '
                'the model is tied to the source by running both on the same tables, and the property is re-evaluated '
@@ -73,8 +74,32 @@ def gen_table(rng, nframes, nch):
         frames.append([main, pal, [cols[j][i] for j in range(nch)]])
     return frames
 
+def gen_table_stacked(rng, nframes, nch):
+    """channels that show the SAME sprites (a pool of 1-3 attribute tuples shared by all channels), entering and
+    leaving at different frames: a span of one channel must never be affected by an identical sprite in another one"""
+    pool = [rand_attrs(rng) for _ in range(rng.choice([1, 1, 2, 3]))]
+    cols = []
+    for j in range(nch):
+        col = []
+        cur = None
+        for i in range(nframes):
+            r = rng.random()
+            if cur is None:
+                cur = rng.choice(pool) if r < 0.45 else None
+            elif r < 0.7:
+                pass
+            elif r < 0.85:
+                cur = None
+            else:
+                cur = rng.choice(pool)
+            col.append(cur)
+        cols.append(col)
+    return [[None, None, [cols[j][i] for j in range(nch)]] for i in range(nframes)]
+
 def gen_cases(rng, tier):
     n = 400 if tier == 'quick' else 20000
+    for k in range(n // 2):
+        yield {'frames': gen_table_stacked(rng, rng.choice([2, 3, 4, 6, 10, 20]), rng.choice([2, 3, 4, 6]))}
     # small exhaustive-ish shapes first
     for nframes in range(0, 5):
         for nch in range(0, 3):
